@@ -4,7 +4,7 @@ import os
 import subprocess
 from . import core, util, dumps
 
-BASE = {"sp": "none", "ip": "interior", "phnum": "true", "phdr": "true", "vaddr": "le_base", "dyn": "terminated", "list": "acyclic", "name": "plain", "bytes": "elf"}
+BASE = {"sp": "none", "ip": "interior", "phnum": "true", "phdr": "true", "vaddr": "le_base", "dyn": "terminated", "list": "acyclic", "name": "plain", "bytes": "elf", "app": "none"}
 U64 = (1 << 64) - 1
 
 
@@ -39,9 +39,13 @@ def scenario_for(inp, k, workdir):
            "regions": [{"name": "code", "len": 8192, "exec": True, "below": "hole", "above": "hole"}],
            "file_maps": [{"path": path, "off": 0, "len": 0x3000, "exec": True, "delete": inp["name"] == "deleted"}],
            "linker_chain": chain}
-    da = {"phnum": {"true": 3, "zero": 0, "larger": 100000, "huge": 1 << 60}[inp["phnum"]],
+    da = {"phnum": {"true": 3, "zero": 0, "larger": 100000, "huge": 1 << 60, "alloc_huge": 1 << 58}[inp["phnum"]],
           "phdr": {"true": {"chain": "phdr"}, "unmapped": "0x30000", "unaligned": {"chain": "phdr", "off": 3}}[inp["phdr"]]}
     w = {"blamed": {"slot": 0}, "direct_auxv": da}
+    app = {"small": [{"addr": {"region": "code"}, "len": 64}], "unmapped": [{"addr": "0x30000", "len": 64}],
+           "len_over_isize": [{"addr": {"region": "code"}, "len": (1 << 63)}], "len_64TiB": [{"addr": {"region": "code"}, "len": 1 << 46}]}.get(inp["app"])
+    if app:
+        w["app_memory"] = app
     sp = {"in_stack": {"thread_sp": 0}, "guard": {"thread_stack": 0, "off": -24}, "unmapped": "0x10000", "top_page": hex(U64 - 7), "misaligned": {"thread_sp": 0, "off": 3}, "zero": 0}
     ip = {"interior": {"region": "code", "off": 300}, "first_bytes": {"region_map": "code", "off": 5}, "last_bytes": {"region_map_end": "code", "off": -3},
           "unmapped": "0x20000", "zero": 0, "max": hex(U64)}
